@@ -8,6 +8,7 @@ import (
 
 	"github.com/tuneinsight/lattigo/v6/core/rlwe"
 	"github.com/tuneinsight/lattigo/v6/ring"
+	"github.com/tuneinsight/lattigo/v6/ring/ringqp"
 	"pgregory.net/rapid"
 )
 
@@ -76,7 +77,9 @@ func init() {
 				return nil, w.ckks.ApplyEvaluationKey(a, w.swk, out)
 			}},
 		&opDesc{impl: "rlwe.ApplyEvaluationKey", name: "ApplyEvaluationKeyNew", scheme: "ckks", aDegs: d1, isNew: true,
-			call: func(w *W, a *CT, b any, out *CT, arg [3]int) (*CT, error) { return w.ckks.ApplyEvaluationKeyNew(a, w.swk) }},
+			call: func(w *W, a *CT, b any, out *CT, arg [3]int) (*CT, error) {
+				return w.ckks.ApplyEvaluationKeyNew(a, w.swk)
+			}},
 		&opDesc{impl: "rlwe.PartialTracesSum", name: "InnerSum", scheme: "ckks", aDegs: d1, natural: natSame, gal: galInnerSum,
 			call: func(w *W, a *CT, b any, out *CT, arg [3]int) (*CT, error) {
 				return nil, w.ckks.InnerSum(a, arg[0], arg[1], out)
@@ -107,6 +110,39 @@ func init() {
 	)
 }
 
+// hoistedLazy evaluates RotateHoistedLazyNew and returns the Q and P parts of the three results as one element.
+func hoistedLazy(w *world, a *rlwe.Ciphertext, arg [3]int) (*rlwe.Ciphertext, error) {
+	if w.rp.PCount() == 0 {
+		return nil, fmt.Errorf("harness: hoisted rotations need an auxiliary modulus")
+	}
+	rots := hoistedRots(arg)
+	lvl := a.Level()
+	w.rl.DecomposeNTT(lvl, w.rp.MaxLevelP(), w.rp.PCount(), a.Value[1], a.IsNTT, w.rl.BuffDecompQP)
+	var m map[int]*rlwe.Element[ringqp.Poly]
+	var err error
+	if w.bgv != nil {
+		m, err = w.bgv.RotateHoistedLazyNew(lvl, rots, a, w.rl.BuffDecompQP)
+	} else {
+		m, err = w.ckks.RotateHoistedLazyNew(lvl, rots, a, w.rl.BuffDecompQP)
+	}
+	if err != nil {
+		return nil, err
+	}
+	res := &rlwe.Ciphertext{}
+	res.MetaData = a.MetaData.CopyNew()
+	for _, r := range rots {
+		if el, ok := m[r]; ok && el != nil {
+			for _, v := range el.Value {
+				res.Value = append(res.Value, v.Q, v.P)
+			}
+		}
+	}
+	if len(res.Value) == 0 {
+		return nil, fmt.Errorf("harness: no rotation")
+	}
+	return res, nil
+}
+
 func galConj(e *env, arg [3]int) []uint64 {
 	if e.rp.RingType() != ring.Standard {
 		return nil
@@ -121,6 +157,34 @@ func galHoisted(e *env, arg [3]int) (g []uint64) {
 		g = append(g, e.rp.GaloisElement(r))
 	}
 	return
+}
+
+func init() {
+	for _, scheme := range []string{"bgv", "ckks"} {
+		register(&opDesc{name: "RotateHoistedLazyNew", scheme: scheme, aDegs: []int{1}, isNew: true, gal: galHoisted,
+			call: func(w *world, a *rlwe.Ciphertext, b any, out *rlwe.Ciphertext, arg [3]int) (*rlwe.Ciphertext, error) {
+				return hoistedLazy(w, a, arg)
+			}})
+	}
+	// MatchScalesAndLevel is documented as in-place on BOTH arguments: only the evaluator history / poison and the
+	// receiver are varied, op0 is not asserted intact (inPlaceA).
+	register(&opDesc{name: "MatchScalesAndLevel", scheme: "bgv", aDegs: []int{1, 2}, inPlaceA: true,
+		natural: func(e *env, a *rlwe.Ciphertext, b any, arg [3]int) (int, int) { return a.Degree(), a.Level() },
+		call: func(w *world, a *rlwe.Ciphertext, b any, out *rlwe.Ciphertext, arg [3]int) (*rlwe.Ciphertext, error) {
+			// the second argument is an input and an output as well: a copy of op0 at another scale and level
+			out = a.CopyNew()
+			if arg[2]%2 == 1 && out.Level() > 0 {
+				out.Resize(out.Degree(), out.Level()-1)
+			}
+			out.Scale = w.bgvP.NewScale(uint64(3 + arg[1]))
+			w.bgv.MatchScalesAndLevel(a, out)
+			// both arguments are outputs: return them concatenated
+			res := &rlwe.Ciphertext{}
+			res.MetaData = out.MetaData.CopyNew()
+			res.Value = append(append(res.Value, a.Value...), out.Value...)
+			res.Scale = a.Scale.Mul(out.Scale)
+			return res, nil
+		}, isNew: true})
 }
 
 var propCKKS = h.NewProp("TestPropCKKS", h.Budget{Quick: 4000, Thorough: 120000},
